@@ -14,6 +14,7 @@ import (
 	"io"
 	"log"
 	"math/rand"
+	"net"
 	"net/http"
 	"net/url"
 	"os"
@@ -25,7 +26,6 @@ import (
 
 	"github.com/valyala/fasthttp"
 	"github.com/valyala/fasthttp/fasthttpadaptor"
-	"github.com/valyala/fasthttp/fasthttputil"
 	"verif/harness/hlib"
 )
 
@@ -79,11 +79,36 @@ func handler(w http.ResponseWriter, r *http.Request) {
 	}
 }
 
-var lnNet, lnFast *fasthttputil.InmemoryListener
+// pipeListener: an in-memory net.Listener over net.Pipe (synchronous, with working deadlines; net/http's
+// server relies on SetReadDeadline to abort its background read)
+type pipeListener struct{ ch chan net.Conn }
+
+func newPipeListener() *pipeListener { return &pipeListener{ch: make(chan net.Conn)} }
+func (l *pipeListener) Accept() (net.Conn, error) {
+	c, ok := <-l.ch
+	if !ok {
+		return nil, io.EOF
+	}
+	return c, nil
+}
+func (l *pipeListener) Close() error   { return nil }
+func (l *pipeListener) Addr() net.Addr { return pipeAddr{} }
+func (l *pipeListener) Dial() (net.Conn, error) {
+	c1, c2 := net.Pipe()
+	l.ch <- c2
+	return c1, nil
+}
+
+type pipeAddr struct{}
+
+func (pipeAddr) Network() string { return "pipe" }
+func (pipeAddr) String() string  { return "pipe" }
+
+var lnNet, lnFast *pipeListener
 
 func startServers() {
-	lnNet = fasthttputil.NewInmemoryListener()
-	lnFast = fasthttputil.NewInmemoryListener()
+	lnNet = newPipeListener()
+	lnFast = newPipeListener()
 	hs := &http.Server{Handler: http.HandlerFunc(handler), ErrorLog: log.New(io.Discard, "", 0)}
 	go hs.Serve(lnNet)
 	fs := &fasthttp.Server{Handler: fasthttpadaptor.NewFastHTTPHandler(http.HandlerFunc(handler)), Logger: log.New(io.Discard, "", 0)}
@@ -104,7 +129,7 @@ type robs struct {
 	body   []byte
 }
 
-func roundtrip(ln *fasthttputil.InmemoryListener, req string) robs {
+func roundtrip(ln *pipeListener, req string) robs {
 	c, err := ln.Dial()
 	if err != nil {
 		return robs{}
@@ -134,19 +159,43 @@ func roundtrip(ln *fasthttputil.InmemoryListener, req string) robs {
 
 // ---------------------------------------------------------------- Coq printing
 
-func coqHdr(h http.Header) string {
+// bs prints a byte string compactly: printable ASCII as (s2b "..."), anything else as (h "hex").
+// (Parsing the case files is the dominant cost of a run: about 45 us per source character.)
+func bs(b []byte) string {
+	for _, c := range b {
+		if c < 0x20 || c > 0x7e || c == '"' {
+			return hlib.Hex(b)
+		}
+	}
+	return `(s2b "` + string(b) + `")`
+}
+func bss(s string) string { return bs([]byte(s)) }
+
+// names that the compared projection never looks at (Spec excluded_name): not emitted
+func excludedName(k string) bool {
+	switch k {
+	case "Date", "Content-Length", "Connection", "Transfer-Encoding", "Trailer":
+		return true
+	}
+	return false
+}
+
+func coqHdr(h http.Header, dropExcluded bool) string {
 	ks := make([]string, 0, len(h))
 	for k := range h {
+		if dropExcluded && excludedName(k) {
+			continue
+		}
 		ks = append(ks, k)
 	}
 	sort.Strings(ks)
 	items := make([]string, 0, len(ks))
 	for _, k := range ks {
-		vs := make([][]byte, len(h[k]))
+		vs := make([]string, len(h[k]))
 		for i, v := range h[k] {
-			vs[i] = []byte(v)
+			vs[i] = bss(v)
 		}
-		items = append(items, hlib.Tuple(hlib.HexS(k), hlib.HexList(vs)))
+		items = append(items, hlib.Tuple(bss(k), hlib.List(vs)))
 	}
 	return hlib.List(items)
 }
@@ -155,7 +204,7 @@ func coqRobs(o robs) string {
 	if !o.ok {
 		return hlib.App("Build_robs", "false", hlib.Z(0), "[]", hlib.Hex(nil))
 	}
-	return hlib.App("Build_robs", "true", hlib.Z(int64(o.status)), coqHdr(o.hdr), hlib.Hex(o.body))
+	return hlib.App("Build_robs", "true", hlib.Z(int64(o.status)), coqHdr(o.hdr, true), bs(o.body))
 }
 
 func coqProg(p []opd) string {
@@ -165,13 +214,13 @@ func coqProg(p []opd) string {
 		case "wh":
 			it[i] = hlib.App("WriteHeader", hlib.Z(int64(o.C)))
 		case "add":
-			it[i] = hlib.App("HAdd", hlib.Hex(o.N), hlib.Hex(o.V))
+			it[i] = hlib.App("HAdd", bs(o.N), bs(o.V))
 		case "set":
-			it[i] = hlib.App("HSet", hlib.Hex(o.N), hlib.Hex(o.V))
+			it[i] = hlib.App("HSet", bs(o.N), bs(o.V))
 		case "del":
-			it[i] = hlib.App("HDel", hlib.Hex(o.N))
+			it[i] = hlib.App("HDel", bs(o.N))
 		case "write":
-			it[i] = hlib.App("Write", hlib.Hex(o.V))
+			it[i] = hlib.App("Write", bs(o.V))
 		case "flush":
 			it[i] = "Flush"
 		default:
@@ -328,8 +377,8 @@ func coqCobs(r *http.Request, err error) string {
 	if berr != nil {
 		return hlib.None()
 	}
-	return hlib.Some(hlib.App("Build_cobs", hlib.HexS(r.Method), hlib.HexS(r.RequestURI), hlib.HexS(r.URL.String()), hlib.HexS(r.Proto),
-		hlib.Z(int64(r.ProtoMajor)), hlib.Z(int64(r.ProtoMinor)), hlib.HexS(r.Host), coqHdr(r.Header), hlib.Hex(body)))
+	return hlib.Some(hlib.App("Build_cobs", bss(r.Method), bss(r.RequestURI), bss(r.URL.String()), bss(r.Proto),
+		hlib.Z(int64(r.ProtoMajor)), hlib.Z(int64(r.ProtoMinor)), bss(r.Host), coqHdr(r.Header, false), bs(body)))
 }
 
 func optStr(s string, err error) string {
@@ -364,34 +413,29 @@ func runConv(d desc) hlib.Case {
 	aerr := fasthttpadaptor.ConvertRequest(&ctx, &ar, true)
 	nr, nerr := http.ReadRequest(bufio.NewReader(bytes.NewReader(raw)))
 
-	// reference URL strings from the standard library
+	// reference URL strings / hosts from the standard library
 	refParse, refAuth := hlib.None(), hlib.None()
-	urlHost := ""
+	urlHost, authHost := "", ""
 	if u, err := url.ParseRequestURI(d.Target); err == nil {
-		refParse = hlib.Some(hlib.HexS(u.String()))
+		refParse = hlib.Some(bss(u.String()))
 		urlHost = u.Host
 	}
 	connectAuth := d.Method == "CONNECT" && !strings.HasPrefix(d.Target, "/")
 	if u, err := url.ParseRequestURI("http://" + d.Target); err == nil {
 		u.Scheme = ""
-		refAuth = hlib.Some(hlib.HexS(u.String()))
-		if connectAuth {
-			urlHost = u.Host
-		}
-	} else if connectAuth {
-		urlHost = ""
+		refAuth = hlib.Some(bss(u.String()))
+		authHost = u.Host
 	}
 	hs := make([]string, len(d.Hdrs))
 	for i, kv := range d.Hdrs {
-		hs[i] = hlib.Tuple(hlib.Hex(kv[0]), hlib.Hex(kv[1]))
+		hs[i] = hlib.Tuple(bs(kv[0]), bs(kv[1]))
 	}
-	q := hlib.App("Build_sreq", hlib.HexS(d.Method), hlib.HexS(d.Target), hlib.HexS(d.Proto), hlib.List(hs), hlib.Hex(d.Body), hlib.HexS(urlHost))
 	if d.Chunk {
 		// the chunked framing line is part of the request as the parsers see it
-		hs = append(hs, hlib.Tuple(hlib.HexS("Transfer-Encoding"), hlib.HexS("chunked")))
-		q = hlib.App("Build_sreq", hlib.HexS(d.Method), hlib.HexS(d.Target), hlib.HexS(d.Proto), hlib.List(hs), hlib.Hex(d.Body), hlib.HexS(urlHost))
+		hs = append(hs, hlib.Tuple(bss("Transfer-Encoding"), bss("chunked")))
 	}
-	c.Coq = hlib.App("CConv", hlib.N(uint64(d.Part)), hlib.Hex(d.PName), q, refParse, refAuth, coqCobs(&ar, aerr), coqCobs(nr, nerr))
+	q := hlib.App("Build_sreq", bss(d.Method), bss(d.Target), bss(d.Proto), hlib.List(hs), bs(d.Body), bss(urlHost), bss(authHost))
+	c.Coq = hlib.App("CConv", hlib.N(uint64(d.Part)), bs(d.PName), q, refParse, refAuth, coqCobs(&ar, aerr), coqCobs(nr, nerr))
 
 	// classification of the input for the known findings
 	get := func(name string) (out []string) {
@@ -406,6 +450,9 @@ func runConv(d desc) hlib.Case {
 	if effHost == "" && len(get("Host")) > 0 {
 		effHost = get("Host")[0]
 	}
+	if connectAuth {
+		effHost = authHost
+	}
 	switch d.Part {
 	case 0:
 		if connectAuth {
@@ -414,7 +461,9 @@ func runConv(d desc) hlib.Case {
 			c.Key = "convert-proto-version"
 		}
 	case 1:
-		if effHost != strings.ToLower(effHost) {
+		if connectAuth {
+			c.Key = "convert-connect-url"
+		} else if effHost != strings.ToLower(effHost) {
 			c.Key = "convert-host-lowercased"
 		}
 	case 2:
@@ -467,9 +516,12 @@ func randBody(r *rand.Rand) []byte {
 	case 0:
 		return nil
 	case 1:
-		return hlib.Bytes(r, []byte("abc<>html \x00\xff\x89PNG\r\n"), 300)
+		return hlib.Bytes(r, []byte("abc<>html \x00\xff\x89PNG\r\n"), 60)
 	case 2:
-		b := make([]byte, 2100+r.Intn(900))
+		if r.Intn(12) != 0 {
+			return hlib.Bytes(r, []byte("abcdefghijklmnopqrstuvwxyz"), 200)
+		}
+		b := make([]byte, 2050+r.Intn(100)) // larger than net/http's 2048-byte response buffer
 		for i := range b {
 			b[i] = byte('a' + i%26)
 		}
@@ -751,8 +803,9 @@ func main() {
 			"net/http.Server for GET/HEAD/POST, HTTP/1.0 and 1.1; conv: structured requests (methods, origin/absolute/asterisk/authority targets, protocol versions, mixed-case " +
 			"and repeated headers, Cookie/Connection/Content-Length/chunked bodies) through ConvertRequest and http.ReadRequest; each case checks one part (status / fields / body; " +
 			"request line / Host / header Host / one named header / other headers / body); a case is non-trivial per (request kind, part, status, mode, finding class)",
-		Corpus: corpus,
-		Gen:    gen,
-		Run:    run,
+		Corpus:   corpus,
+		Gen:      gen,
+		Run:      run,
+		ShardLen: 200,
 	})
 }
